@@ -128,6 +128,10 @@ def build_repo(variant="asan"):
     with Lock(os.path.join(CACHE, "lock-" + variant)):
         lib = os.path.join(bdir, "libxmp.a")
         if os.path.exists(lib) and os.path.exists(os.path.join(bdir, ".ok")):
+            try:
+                os.utime(bdir, None)        # in use: keeps it out of the stale set
+            except OSError:
+                pass
             return bdir
         # purge stale build directories of this variant, but never one that may still be in use by a
         # concurrent check started before /repo changed (age limit), and keep the disk bounded (max 4)
@@ -135,7 +139,8 @@ def build_repo(variant="asan"):
                        if d.startswith(variant + "-") and d != key and os.path.isdir(os.path.join(CACHE, d)))
         now = time.time()
         for i, (mt, d) in enumerate(stale):
-            if now - mt > 1200 or len(stale) - i > 4:
+            # (a thorough run can last a quarter of an hour; the directory's mtime is refreshed at each use)
+            if now - mt > 7200 or len(stale) - i > 12:
                 shutil.rmtree(os.path.join(CACHE, d), ignore_errors=True)
         shutil.rmtree(bdir, ignore_errors=True)
         t0 = time.time()
